@@ -1081,6 +1081,18 @@ def id_array_first_use(ctx, P, rule="ID-ARRAY-VALIDATED"):
                         t = estr(s_)
                         if t in loaded or t.startswith(pn + "["):
                             tests = True
+            # a range test moved into a helper that receives the ELEMENT: f(…, P[j]) / f(…, n) with f comparing that parameter
+            for c in calls(f.body):
+                g = funcs.get(callee(c) or "")
+                if g is None:
+                    continue
+                for j, a in enumerate(c.kids[1:]):
+                    t = estr(a)
+                    if (t in loaded or t.startswith(pn + "[")) and j < len(g[1].params) and g[1].params[j].name:
+                        gp = g[1].params[j].name
+                        for y in walk(g[1].body):
+                            if y.k == "BinaryOperator" and y.op in ("<", ">=", ">", "<=") and any(estr(s_) == gp for s_ in y.kids[:2]):
+                                tests = True
             passes = sorted((c.b, callee(c), j) for c in calls(f.body) for j, a in enumerate(c.kids[1:]) if estr(a) == pn)
             info[(name, i)] = {"uses": uses, "tests": tests, "passes": passes, "pn": pn}
 
